@@ -3,3 +3,14 @@ func errors.Is
   assumed
   modifies nothing
   ensures err == target && err != nil ==> result
+# sync.Cond: waking a waiter changes no modelled state (what a waiter may observe after Wait is stated where Wait is used)
+func sync.Cond.Signal
+  assumed
+  modifies nothing
+func sync.Cond.Broadcast
+  assumed
+  modifies nothing
+func sync.NewCond
+  assumed
+  modifies alloc
+  ensures result != nil && fresh(result)
